@@ -564,4 +564,19 @@ theorem clean_final (maxQ last : Int) (ws : List (Int × Req)) (s : List Nat)
   have g5 := step _ _ g4 r5rb r5st
   exact g5.2
 
+theorem spaced_span {prev : Int} {l : List (Int × Int)} (h : Spaced prev l) :
+    prev + (l.map (·.2)).sum ≤ latest prev l := by
+  induction l generalizing prev with
+  | nil => simp [latest]
+  | cons e r ih =>
+    obtain ⟨p, iv⟩ := e
+    obtain ⟨h1, h2⟩ := h
+    have := ih h2
+    simp only [List.map_cons, List.sum_cons, latest]
+    omega
+
+theorem span_of_final (base : Int) (c : Cfg) (h : Spaced base c.log ∧ c.last = latest base c.log) :
+    base + (c.log.map (·.2)).sum ≤ c.last := by
+  rw [h.2]; exact spaced_span h.1
+
 end Sentinel.C10
